@@ -1,6 +1,7 @@
 (* C03 - Tag iteration reproduces the specification's tag walk, zero-copy.
    `walk bs total off items ok` is the specification's walk (Spec/WalkSpec.v). *)
-Require Import Bytes Outcome Common Mbi MbiTags WalkSpec IterFacts C03Proofs.
+Require Import Bytes Outcome Common Mbi MbiTags WalkSpec Big IterFacts C03Proofs BigProofs.
+From Coq Require Import List.
 
 (* For every loaded boot information the iterator run to its end yields exactly
    the specification's walk from offset 8 to the declared total size: the same
@@ -101,3 +102,40 @@ Theorem C03_nth_step_is_nth : forall p h m b blen k nxt o n',
   tagiter_nth p h m b blen nxt k = Val (o, n') -> tagiter_nth_step p h m b blen nxt k = (Val o, n').
 Proof. intros p h m b blen. exact (tagiter_nth_step_val p h m b blen). Qed.
 Print Assumptions C03_nth_step_is_nth.
+
+(* Regions of ANY number of tags (n copies of one padded tag between the header and the end tag): the specification's
+   walk from offset 8 finds the n tags at offsets 8 + i*L with the stored size, then the end tag, and ends regularly;
+   load accepts the region and the iterator yields exactly these items (their k-th, last, and nothing behind);
+   the module iterator yields all n of them when their type is 3, none otherwise.  These closed forms are what the
+   oracle evaluates for the domain `bigwalk` (Model/Big.v), where n exceeds what a list-based run can do (n > 2^16). *)
+Theorem C03_big_walk : forall tag n,
+  8 <= le (slice tag 4 4) -> round8 (le (slice tag 4 4)) = len tag -> 16 + N.of_nat n * len tag < pow2_32 ->
+  walk (big_region n tag) (16 + N.of_nat n * len tag) 8 (big_items_from tag n 0 n) true /\
+  len (big_items_from tag n 0 n) = N.of_nat n + 1 /\
+  forall k, nth_error (big_items_from tag n 0 n) k =
+            if Nat.ltb k n then Some {| i_off := big_off (len tag) k; i_size := le (slice tag 4 4) |}
+            else if Nat.eqb k n then Some {| i_off := big_off (len tag) n; i_size := 8 |} else None.
+Proof.
+  intros tag n H1 H2 H3. split; [exact (big_walk tag n H1 H2 H3)|]. split; [exact (big_items_len tag n H1 H2 H3)|exact (big_items_nth tag n H1 H2 H3)].
+Qed.
+Print Assumptions C03_big_walk.
+
+Theorem C03_big_run : forall p a tag n,
+  8 <= le (slice tag 4 4) -> round8 (le (slice tag 4 4)) = len tag -> 16 + N.of_nat n * len tag < pow2_32 ->
+  a mod 8 = 0 ->
+  let T := 16 + N.of_nat n * len tag in
+  let m := {| m_base := a; m_bytes := big_region n tag |} in
+  mbi_load p false m = Val {| d_off := 0; d_plen := T - 8 |} /\
+  tagiter_run (iter_fuel (T - 8)) p HTagH m 8 (T - 8) 0 = (map dref_of (big_items_from tag n 0 n), Val tt) /\
+  modules_run (iter_fuel (T - 8)) p m 8 (T - 8) 0 =
+    if le (slice tag 0 4) =? MODULE_TYP
+    then if le (slice tag 4 4) <? 16 then (match n with O => ([], Val tt) | _ => ([], Panic) end)
+         else (map (fun i => module_ref {| i_off := big_off (len tag) i; i_size := le (slice tag 4 4) |}) (seq 0 n), Val tt)
+    else ([], Val tt).
+Proof.
+  intros p a tag n H1 H2 H3 Ha T m.
+  destruct (big_run tag n H1 H2 H3 p a Ha) as [A B]. split; [exact A|]. split; [exact B|].
+  unfold m, T. rewrite (big_modules tag n H1 H2 H3 p a Ha).
+  apply (big_modules_spec_from tag n H1 H2 H3 n 0%nat). reflexivity.
+Qed.
+Print Assumptions C03_big_run.
